@@ -13,7 +13,7 @@ use crate::report::{cov, machinery_fail, Report, Tier};
 use crate::sut::{self, Outcome};
 
 const BATCH: usize = 4096;
-const BATCH_REDUCED: usize = 1024; // ATtiny20 has 2048 words of flash
+const BATCH_REDUCED: usize = 256; // must stay well below the flash of the reduced-core device
 const REDUCED_PREFIX: &str = ".device ATtiny20\n";
 
 struct Stats {
